@@ -9,10 +9,10 @@ TB = ('Trusted: CBMC 6.11 (goto-cc C front end, goto-instrument --dfcc, SAT back
 
 CLAIMS = {
  'C01': dict(level='other', design='6 C01',
-   text='Contracts on the real bodies of Array::reserve, resize/clear, insert/operator<<, remove, copy constructor, destructor, operator=, free, append(const Array&) (also a.append(a)), dup()/clone(): abstract view (n, elements) via a ghost index, '
+   text='Contracts on the real bodies of Array::reserve, resize/clear, insert/operator<<, remove, copy constructor, destructor, operator=, free, append(const Array&) (also a.append(a)), dup()/clone(), slice(), one partition pass of quicksort (sort()): abstract view (n, elements) via a ghost index, '
         'element life-cycle counters (constructed once, destroyed once), reference-count protocol, frames and frees. Block capacity (and requested size where it fixes an allocation size) is a constant per variant '
         '(3, 4, 6: crossing the growth steps); n, index, rc, contents and the aliasing choice (argument is an element of the same array) are symbolic. Every unit is therefore a bounded stand-in (bounded by capacity), not a proof for all capacities.',
-   note=TB + 'Claimed at level other because every C01 unit is capacity-bounded. Histories: induction over the proved mutators (paper step). Not decided: sort, slice/concat/filter/map templates, String elements, Stack/Queue wrappers beyond resize/remove, all capacities at once. Known finding: growth while the block is shared.',
+   note=TB + 'Claimed at level other because every C01 unit is capacity-bounded. Histories: induction over the proved mutators (paper step). Not decided: concat/filter/map templates, String elements, Stack/Queue wrappers beyond resize/remove, all capacities at once. Known finding: growth while the block is shared.',
    technique='CBMC code contracts (DFCC) on extracted template bodies, capacity fixed per variant'),
  'C02': dict(level='other', design='6 C02',
    text='nextPoT proved for all n (bucket index always in range). Map::indexOf, set/operator(), remove, operator== verified as finite-map operations on every strictly sorted map of up to 8 int keys '
@@ -25,7 +25,7 @@ CLAIMS = {
    technique='own VC generator over the extracted expression text + SMT (QF_NRA) on three solvers'),
  'C03': dict(level='proof', design='6 C03',
    text='Contracts (requires/ensures/assigns/frees) on the real bodies of String::resize, append, assign, concat, substring, substr, '
-        'operator+=(char), String(const char*,int), copy constructor, String(int), String(Long), lastIndexOf, the retry loops of String::f and String(int n, fmt, ...) over a C99 vsnprintf contract, one turn of the split(sep)/replace(a,b) scanning loops over the strstr contract (pieces tile the text, strict progress for non-empty patterns), trim()/trimmed() on every inline string (+ alloc/init/str/String(cap,n) inlined), '
+        'operator+=(char), String(const char*,int), copy constructor, String(int), String(Long), lastIndexOf, the retry loops of String::f and String(int n, fmt, ...) over a C99 vsnprintf contract, one turn of the split(sep)/replace(a,b) scanning loops over the strstr contract (pieces tile the text, strict progress for non-empty patterns), trim()/trimmed() on every inline string, operator< as a strict total byte-wise order (+ alloc/init/str/String(cap,n) inlined), '
         'cut from /repo on every run and discharged by CBMC for all strings up to 100000 bytes: representation invariant (length = offset '
         'of NUL, capacity > length), byte-string model via a ghost index, frames, frees. Aliasing variants (source inside the string) are '
         'proved for the inline buffer and bounded by capacity for heap buffers.',
@@ -62,13 +62,13 @@ CLAIMS = {
    text='For EVERY Unicode scalar value at once (one symbolic code point): utf32toUtf8 emits exactly the bytes of Unicode table 3-6, utf8toUtf32 returns it, '
         'utf8toUtf16 gives table 3-5, utf16toUtf8 returns the same bytes, code-point iteration yields the value and its length, count() of two values is 2. '
         'For ANY NUL-terminated bytes / 0-terminated code arrays of symbolic length (loop contracts): the four converters, count() and the iteration step stay '
-        'inside input and inside the output capacity their call sites give, and terminate. Case: one step of toUpperCase/toLowerCase for every code point stays inside the capacity, the per-pair rule of equalsNocase does not depend on byte length; the whole equalsNocase on strings of up to 2 code points per side (bounded); toUpperCase/toLowerCase as wholes fix the result length to the bytes written.',
+        'inside input and inside the output capacity their call sites give, and terminate. Case: one step of toUpperCase/toLowerCase for every code point stays inside the capacity, the per-pair rule of equalsNocase does not depend on byte length; the whole equalsNocase on strings of up to 2 code points per side (bounded); toUpperCase/toLowerCase as wholes fix the result length to the bytes written; dataw() reserves room for padding, one UTF-16 unit per byte and the terminator for every length.',
    note=TB + 'Not decided: whole-sequence equality (k-th output = decoding of k-th sequence), chars()/fromCodes wrappers (Array), the case mapping tables against the Unicode database, local-charset conversions.',
    technique='CBMC: full-domain harness over all scalar values + code contracts with loop contracts for arbitrary bytes'),
  'C16': dict(level='proof', design='6 C16',
    text='Per scalar type (u16,i16,i32,u32,f32,i64,u64,f64 as bit patterns) and byte order (BIG, LITTLE, NATIVE): swapBytes, StreamBufferReader::read2/4/8, '
         'StreamBuffer/File/Socket operator<<(const T&) and File/Socket operator>>(T&) write/consume exactly sizeof(T) bytes equal to the canonical encoding in that order; '
-        'frames show the order setting and the source are untouched (order changes affect only later values). Array writers: length*sizeof(T) bytes, bounded to 3 elements.',
+        'frames show the order setting and the source are untouched (order changes affect only later values). Array writers: length*sizeof(T) bytes, bounded to 3 elements. StreamBufferReader::read(n) reads exactly n bytes (none for 0, the rest for n < 0).',
    note=TB + 'write()/read() are ghost wire stubs (the real ones are Array<byte>::append, fwrite/fread, send/recv). Host little-endian. Strings and File::operator>>(String&) not covered.',
    technique='CBMC code contracts (DFCC) per template instantiation, ghost-index byte specification'),
  'C17': dict(level='proof', design='6 C17',
@@ -79,12 +79,12 @@ CLAIMS = {
  'C19': dict(level='proof', design='6 C19',
    text='For EVERY day of years 0001..9999 (one symbolic day number): yearFromTime returns the Gregorian year containing it, the month search and weekday formula of calc() give the unique '
         'year/month/day/weekday, construct() of valid fields is 86400 s times the day number they denote (so fields -> instant -> fields is the identity at day granularity), the floating '
-        'macro timeFromYearAsDays equals the integer day count. The weekday statements at the end of calc() in floating point exactly as written (bias, t/86400, floor, % 7 fix-up) for every integer second: days -400..400 in the quick tier (bounded), every day of years 0001..9999 in the thorough tier. ISO parser: every read inside the text for ANY string, fraction loop terminates, numeric zone offsets shift the instant by the stated offset. toString(FULL): millisecond field in 0..999 for every instant.',
+        'macro timeFromYearAsDays equals the integer day count. The weekday statements at the end of calc() in floating point exactly as written (bias, t/86400, floor, % 7 fix-up) for every integer second: days -400..400 in the quick tier (bounded), every day of years 0001..9999 in the thorough tier. ISO parser: every read inside the text for ANY string, fraction loop terminates, numeric zone offsets shift the instant by the stated offset. toString(FULL): millisecond field in 0..999 for every instant; every numeric format prints the year with four digits; parseInt turns 1..9 digits into a number.',
    note=TB + 'Not decided: hour/minute/second extraction in calc() (floating fract), the floating entry floor(t/86400) of yearFromTime except for 1969..1971 (thorough, bounded), formatting (printf), the HTTP-date branch (split/Map), local time, the custom-format constructor.',
    technique='CBMC code contracts (DFCC) over a symbolic day number; loop contract for the parser'),
  'C09': dict(level='proof', design='6 C09',
    text='For ANY request target / URL text / header value (symbolic lengths and positions): every substring() and operator[] argument in the fragment/query/path split of HttpRequest::read and in Url::Url is in range; Url::decode stays inside the text and terminates; '
-        'the ".." filter tests and cleans the DECODED path, also when percent-decoding yields NUL bytes; the Range header parts are only indexed below their count; each turn of the readBody read loop reads 1..sizeof(buffer) bytes and either delivers data or returns, and the outer loop ends when the peer closes mid-body; one turn of the header loop ends at the empty line AND at end of stream; parseQuery splits on & and = before it percent-decodes; header names are keyed case-insensitively (capitalized()); the socket read loop under readLine ends when the peer closes.',
+        'the ".." filter tests and cleans the DECODED path, also when percent-decoding yields NUL bytes; the Range header parts are only indexed below their count; each turn of the readBody read loop reads 1..sizeof(buffer) bytes and either delivers data or returns, and the outer loop ends when the peer closes mid-body; one turn of the header loop ends at the empty line AND at end of stream; parseQuery splits on & and = before it percent-decodes; header names are keyed case-insensitively (capitalized()); the socket read loop under readLine ends when the peer closes; serveFile uses the request path as decoded once.',
    note=TB + 'String/Array/Socket callees are contract stubs: substring precondition (C03), indexOf = first occurrence or -1, contains/replace on the C string (assumed), Socket::read = 1..n bytes or 0/negative after close. NOT decided: Socket::readLine, header name/value storage (Dic), delivered method/headers/body equal to what was sent, file mapping, keep-alive dispatch loop.',
    technique='CBMC code contracts on extracted code regions with callee contracts as stubs'),
  'C10': dict(level='proof', design='6 C10',
@@ -94,13 +94,13 @@ CLAIMS = {
    technique='CBMC code contracts with loop contracts on extracted bodies, OS calls as contract stubs'),
  'C11': dict(level='proof', design='6 C11',
    text='WebSocket::send frame header proved against an RFC 6455 5.2 specification for EVERY payload length 1..2^31-1, frame type and masking key (7/16/64-bit length forms at exactly 125/126 and 65535/65536, network order). '
-        'WebSocket::receive header decoding for ANY bytes from the peer never sizes the buffer with a negative length. One iteration of the receive frame loop for ANY frame bytes: a data frame adds exactly its payload once, control frames add nothing. Word-wise masking loop = per-octet RFC masking (bounded to 13-byte payloads). Handshake ingredients: encodeBase64 and the SHA-1 units of C15 are re-run here; handshake header names are keyed case-insensitively; WebSocketMsg to String/Var keeps the message length (zero bytes included).',
+        'WebSocket::receive header decoding for ANY bytes from the peer never sizes the buffer with a negative length. One iteration of the receive frame loop for ANY frame bytes: a data frame adds exactly its payload once, control frames add nothing. Word-wise masking loop = per-octet RFC masking (bounded to 13-byte payloads). Handshake ingredients: encodeBase64 and the SHA-1 units of C15 are re-run here; handshake header names are keyed case-insensitively; WebSocketMsg to String/Var keeps the message length (zero bytes included) and fix() never changes it; payload reads go through the C10 socket read loop unit.',
    note=TB + 'StreamBuffer and socket operations are ghost wire stubs whose byte order behaviour is the contract proved in C16. Not decided: ordering across messages / ping interleaving over real sockets (schedules), the handshake exchange itself (header text), unmask loop of receive (same text shape as send).',
    technique='CBMC code contracts on extracted code regions with ghost wire stubs'),
  'C15': dict(level='proof', design='6 C15',
    text='encodeBase64 proved against an RFC 4648 specification macro for every input up to 4096 bytes (10^6 in the thorough tier) with a loop contract. decodeBase64: every RFC group of all 2^24 byte triples (both padding forms) decodes to its bytes; '
         'one loop step for ANY character and loop state (space/tab/LF/CR skipped, alphabet characters add their value in order, progress); result length >= 0 for any padding count. decodeHex for text of any length (odd too) stays inside its result. '
-        'Url::decode(Url::encode(c)) = c for every byte in both modes (whole bodies on a one-character string); parseQuery splits before it decodes. SHA-1: round macros = FIPS 180-4 f_t/K_t/schedule/big-endian load for all t and all states; '
+        'Url::decode(Url::encode(c)) = c for every byte in both modes (whole bodies on a one-character string); parseQuery splits before it decodes, Url::params encodes keys and values in component mode. SHA-1: round macros = FIPS 180-4 f_t/K_t/schedule/big-endian load for all t and all states; '
         'SHA1::end appends 0x80, minimal zero padding and the 64-bit big-endian length for every message length; SHA1::update cuts any message into the right 64-byte blocks (buffer offsets 0, 3, 56, 63: bounded variants); the 80-step composition of transform() is a syntactic pattern check, not solver-discharged.',
    note=TB + 'NOT decided: decodeBase64 as one loop-contract unit (registered units cover its group decoding, loop step and tail separately; the whole-function unit does not finish), encodeHex text (snprintf), '
         'Url::params/parseQuery as Dic-level inverses, sampled large sizes.',
